@@ -446,6 +446,26 @@ func (vlog *valueLog) rewrite(bucket uint32, fid uint32) error {
 		}
 	}
 
+	// The segment may only be removed once every write that supersedes its
+	// records is durable: the entries rewritten above, those of an earlier
+	// rewrite of the same segment, or a client's overwrite. With buffered
+	// (non-sync) writes their WAL records can still sit in a user-space buffer,
+	// and a crash would then recover only the old LSM entries, which point into
+	// the segment that is gone.
+	for _, m := range vlog.managers {
+		if m == nil {
+			continue
+		}
+		if err := m.SyncActive(); err != nil {
+			return err
+		}
+	}
+	if vlog.db.wal != nil {
+		if err := vlog.db.wal.Sync(); err != nil {
+			return err
+		}
+	}
+
 	deleteNow := false
 	vlog.filesToDeleteLock.Lock()
 	if vlog.iteratorCount() == 0 {
